@@ -29,9 +29,9 @@ CHECKS = {
    design="4 C07"),
  "C08": dict(
    category="fault_enumeration",
-   text="Environment slice of totality: every realistic source tree (repository shaders, generated include graphs) is compiled under every single storage/transport fault of the simulated file system - error at each load index, short read at every line end and mid-line, bit flips and lost/duplicated line windows on a fixed lattice, empty file, CRLF/BOM/NUL, hostile real_name, stale second read, unguarded include cycles - and seeded combinations of up to three, on all four targets and option combinations, inside supervised worker processes so that panics, aborts, stack overflows and hangs are all observed. Outcome must be Ok or an Err that renders. Finite fault kinds are enumerated completely in the thorough tier; quick visits a seed-chosen residue class of the same universe.",
-   note="Slice only: inputs as they arrive through the include handler. Arbitrary byte strings, token soups and grammar-derived programs are input fuzzing (another family) and are not generated, so a panic that needs syntax no corpus file +- one fault contains is out of reach. Open known findings are listed in known_findings.json and matched by call site + message prefix.",
-   technique="deterministic simulation with fault injection at the IncludeHandler seam; supervised worker processes attribute aborts/stack overflows/hangs",
+   text="Environment slice of totality, plus the baseline it rests on: every realistic source tree (repository shaders, generated include graphs) is compiled under every single storage/transport fault of the simulated file system - error at each load index, short read at every line end and mid-line, bit flips and lost/duplicated line windows on a fixed lattice, empty file, CRLF/BOM/NUL, twelve hostile real_names, stale second read, lost guards, inserted self-includes, include cycles - and combinations of up to three from a constant universe seed, on all four targets and option combinations, inside supervised worker processes so that panics, aborts, stack overflows and hangs are all observed; every token of every snippet of the repository's own tests is lost, duplicated or swapped; and 16 families of programs with a nesting / repetition parameter must need at most 8x more allocation events (deterministic logical time) per doubling. Outcome must be Ok or an Err that renders. The fault universes are finite and fixed by the tree; thorough enumerates them completely (about 750 000 runs), quick visits a seed-chosen residue class.",
+   note="Arbitrary byte strings, token soups and grammar-derived programs are input fuzzing (another family) and are not generated, so a panic that needs syntax that no corpus file, snippet or generated program +- one fault contains is out of reach. Wall-clock time is only judged by the hang watchdog (120 s per unit); polynomial time is judged in allocation events. Open known findings are listed in known_findings.json and matched by file + innermost two functions of the panic backtrace + message prefix.",
+   technique="deterministic simulation with fault injection at the IncludeHandler seam; supervised worker processes attribute aborts/stack overflows/hangs; logical-time (allocation event) scaling",
    design="4 C08"),
  "C12": dict(
    category="exploration",
@@ -41,9 +41,9 @@ CHECKS = {
    design="4 C12"),
  "C14": dict(
    category="fault_enumeration",
-   text="Multi-file diagnostic slice: the simulator plants a failure whose position it knows - a failed load at a known #include directive, a NUL byte at a known line, a type error at a known marker - in generated include graphs and in the repository's shader trees, then checks that the rendered diagnostic names that file and line, that inserting k in {1,2,7,50} lines above moves the line by exactly k with message, file and column unchanged, and that growing files loaded earlier (or adding ## scratch files) leaves the diagnostic byte-identical. Token locations of every marker are also checked against where the generator wrote it. Whole-tree CRLF translation must not change outputs.",
-   note="Only diagnostics whose position the simulator caused; the trivia clause (whitespace/comments at token boundaries never change the emitted source) is a pure text relation and is not decided except for CRLF translation.",
-   technique="deterministic simulation with fault injection: planted load failures / corrupt bytes at known positions across include histories, metamorphic k-line shift and bystander growth",
+   text="The simulator plants a failure whose position it knows - a failed load at a known #include directive, a NUL byte or an unterminated comment at a known line, one of eight type-error gadgets (redefinitions and unknown names in several syntactic shapes) after a declaration the reference model says is emitted - in generated include graphs and in the repository's shader trees, then checks that the rendered diagnostic names that file, line (and column for gadgets), that inserting k in {1,2,7,50} trivia lines above the construct moves the line by exactly k with message, file and column unchanged, and that growing files loaded earlier leaves the diagnostic byte-identical. The file:line:col of every token of generated graphs (through macro bodies, command-line defines and ## scratch files) is compared with where the generator wrote it. Layout trivia: whole-tree CRLF translation and whitespace / comments / backslash splices inserted at token boundaries inside the lines of every file must not change the result.",
+   note="Diagnostics whose position the simulator did not cause are not judged (a failing #if condition is reported where its first token was written, possibly a macro body). Trivia is inserted in text lines only, never inside directive lines, strings, comments or multi-character operators, and never directly after < or >.",
+   technique="deterministic simulation with fault injection: planted load failures / corrupt bytes / error gadgets at known positions across include histories, metamorphic k-line shift, bystander growth and trivia insertion",
    design="4 C14"),
 }
 
